@@ -44,5 +44,20 @@ CLAIMED = {
         "IT/SM: quick tier covers the account kind patterns with <= 1 letter, the all-letter pattern and 12 seeded patterns; thorough all 4096. Norway's '00' account branch is excluded by assumption (oracle uncertain). German banks: C07.",
         "3 C06",
     ),
+    "C08": (
+        "IBAN.generate is executed on symbolic component strings of every length 0..width+2 (one component varied at a time; seeded triples in the thorough tier) for one country per table signature; per path the solver shows the outcome is a valid IBAN whose component fields equal the upper-cased, zero-padded inputs (combined bank+branch split), or a library error of the component-specific class when a component is over-long.",
+        "Alphabet: ASCII digits/letters and all upper-case-stable code points (whitespace/expanding/non-ASCII case-changing code points: Lemma N on clean()). A combined-width bank code together with a non-empty branch code is outside the claim.",
+        "3 C08",
+    ),
+    "C09": (
+        "For the 19 computing countries BBAN.from_components runs on symbolic class-conforming components; wherever it returns, the national check of the result returns True and IBAN.generate of the same components validates nationally. For every country with positions a symbolic (nationally valid) BBAN is decomposed and rebuilt by the real code and compared position by position.",
+        "IT/SM: numeric and all-letter account patterns (thorough: 64 seeded patterns). Stated at BBAN level; the IBAN-level link is C06.",
+        "3 C09",
+    ),
+    "C16": (
+        "For two symbolic texts wrapped as IBAN/BIC/BBAN/plain str (all 16 kind pairs, lengths 0..2 each; thorough 0..3) the six comparison operators of the real classes and hash() are proved equal to the operators on the normalised strings. copy.copy, copy.deepcopy and the pickle reduce/reconstruct round trip run for real on objects of symbolic content and must return an equal object of the same class with equal country and components.",
+        "hash modelled as an uninterpreted function of the content; pickle byte format not modelled (reduce/reconstruct contract only).",
+        "3 C16",
+    ),
 }
 NOT_APPLICABLE = {}
